@@ -23,7 +23,7 @@ ASSUMPTIONS = [
 OPEN_STATEMENTS = [
     'Every clause of the property is a theorem about the Model; outside the theorems: tpb_groups_spec is proved under the hypothesis PermsCover (every shuffle lists each current basis at least once — true for genuine permutations); that numpy.random.RandomState.shuffle produces a permutation is part of the trusted base (the recorded shuffles are checked to reproduce the unpatched call).',
     'binary_partition_iterator / partition_iterator with an explicit num_iterations = it: PROVED for every budget it >= 1 with n <= 2^it (binary_partition_explicit_spec, partition_iterator_explicit_spec), and a smaller budget yields a prefix of a larger one (binary_partition_prefix); budgets with 2^it < n do not split every pair (no statement; correspondence only).',
-    'helper generators: _gen_partitions (gen_partitions_spec: contiguous balanced partitions), _parallel_iter (parallel_iter_spec: exactly the non-empty rows), _get_padding (get_padding_spec) and _asynchronous_iter (async_iter_covers) have theorems; _gen_pairings_between_partitions and _loop_iterator are used inside the proofs of pws_covers / pws_spec (their properties are lemmas there) and are otherwise covered by correspondence only.',
+    'helper generators: _gen_partitions (gen_partitions_spec: contiguous balanced partitions), _parallel_iter (parallel_iter_spec: exactly the non-empty rows), _get_padding (get_padding_spec) and _asynchronous_iter (async_iter_covers) have theorems; _gen_pairings_between_partitions (gen_pairings_between_spec: non-empty, perfect matchings of both parts, every in-half pair co-scheduled with every cross pair of the complementary halves) and _loop_iterator (loop_iterator_spec) have theorems too; pair_within schedules every pair EXACTLY once (pair_within_exactly_once), pair_between every cross pair exactly once (pair_between_spec).',
 ]
 
 
@@ -365,6 +365,13 @@ def vary_int(key, rng, probe):
     return kind if ok else 'int'
 
 
+def b3(ctx, quick, drift, thorough):
+    """budget with an intermediate level for a quick run after source drift (must stay near two minutes in total)"""
+    if ctx.tier != 'quick':
+        return thorough
+    return drift if ctx.drift else quick
+
+
 def rate_for(ctx):
     return 1.0 if (ctx.drift or ctx.tier != 'quick') else 0.3
 
@@ -482,7 +489,7 @@ def stream_pair_between(ctx, fp):
                'all labels with |a-b| leftovers and every cross pair occurs exactly once (offset 0); non-trivial = a, b >= 1')
     rng = rng_for(ctx.seed, 'c18-pb')
     harden(s, rng_for(ctx.seed, 'c18-pb-state'), rate_for(ctx))
-    nmax = budget('thorough' if ctx.drift else ctx.tier, 14, 40)
+    nmax = b3(ctx, 14, 28, 40)
     b = Batch(ctx, s)
     probe = probe_gen(lambda l, conv: fp.pair_between(conv(l[:len(l) // 3]), conv(l[len(l) // 3:])))
     probe_off = lambda conv: [_collect_raw(fp.pair_between, [1, 2, 3], [4, 5, 6, 7, 8], conv(o), seconds=5) for o in (0, 1, 2)]  # noqa: E731
@@ -521,7 +528,7 @@ def stream_pair_within(ctx, fp):
                'length is odd) and all unordered pairs occur; non-trivial = length >= 2; distribution by length mod 4')
     rng = rng_for(ctx.seed, 'c18-pw')
     harden(s, rng_for(ctx.seed, 'c18-pw-state'), rate_for(ctx))
-    nmax = budget('thorough' if ctx.drift else ctx.tier, 64, 100)
+    nmax = b3(ctx, 64, 84, 100)
     b = Batch(ctx, s)
     probe = probe_gen(lambda l, conv: fp.pair_within(conv(l)))
     for n in range(0, nmax + 1):
@@ -664,8 +671,8 @@ def stream_pws(ctx, fp):
                'twice and every 4 labels have one of their 3 splits co-scheduled; non-trivial = n >= 4')
     rng = rng_for(ctx.seed, 'c18-pws')
     t = 'thorough' if ctx.drift else ctx.tier
-    nmax = budget(t, 32, 48)
-    nspec = budget(t, 20, 30)
+    nmax = b3(ctx, 32, 38, 48)
+    nspec = b3(ctx, 20, 24, 30)
     b = Batch(ctx, s)
     harden(s, rng_for(ctx.seed, 'c18-pws-state'), rate_for(ctx))
     probe = probe_gen(lambda l, conv: fp.pair_within_simultaneously(conv(l)))
@@ -1080,20 +1087,183 @@ def stream_tpb(ctx, of, qp):
     return s
 
 
+# ---------------------------------------------------------------- labels of arbitrary hashable type
+
+ZERO_KINDS = ['int0', 'float0', 'negzero', 'False', 'np_int0', 'np_float0', 'empty_str', 'empty_bytes', 'empty_frozenset',
+              'fraction0']
+OTHER_KINDS = ['int', 'str', 'float', 'neg', 'bytes', 'frozenset']
+
+
+def zero_obj(kind):
+    import numpy
+    from fractions import Fraction
+    return {'int0': 0, 'float0': 0.0, 'negzero': -0.0, 'False': False, 'np_int0': numpy.int64(0),
+            'np_float0': numpy.float64(0), 'empty_str': '', 'empty_bytes': b'', 'empty_frozenset': frozenset(),
+            'fraction0': Fraction(0)}[kind]
+
+
+def other_obj(kind, c):
+    """a truthy hashable label for the code c >= 1; different kinds / codes never compare equal"""
+    return {'int': c, 'str': 'q%d' % c, 'float': c + 0.5, 'neg': -c, 'bytes': b'b%d' % c,
+            'frozenset': frozenset({c, -1})}[kind]
+
+
+def make_labels(codes, zero_kinds, other_kinds):
+    """codes: distinct naturals (0 = a falsy label) or None; -> (label objects, decoder)"""
+    objs, dec = [], {}
+    zk = list(zero_kinds)
+    for i, c in enumerate(codes):
+        if c is None:
+            objs.append(None)
+            continue
+        o = zero_obj(zk[0]) if c == 0 else other_obj(other_kinds[i % len(other_kinds)], c)
+        objs.append(o)
+        dec[o] = c
+    return objs, dec
+
+
+def enc_pairing_with(p, dec):
+    out = []
+    for it in p:
+        if isinstance(it, tuple):
+            if len(it) == 2 and not isinstance(it[0], (tuple, list)) and not isinstance(it[1], (tuple, list)):
+                out.append([None if x is None else dec[x] for x in it])
+            else:
+                out.append('bad')
+        elif isinstance(it, list):
+            out.append('bad')
+        else:
+            out.append(None if it is None else dec[it])
+    return out
+
+
+def stream_label_types(ctx, fp):
+    s = Stream('label-types', 'labels of arbitrary hashable type: (a) EVERY position of a falsy label (0, 0.0, -0.0, False, numpy '
+               'zeros, "", b"", frozenset(), Fraction(0)) in every list of 2..21 labels for pair_within and '
+               'pair_within_simultaneously, and in both fragments of pair_between (sizes <= 6); (b) random mixtures of ints, '
+               'negative ints, floats, strings, bytes, frozensets with one or several falsy labels; the Model runs on integer '
+               'codes of the labels; Spec oracles as in the integer streams; (c) lists with a duplicate label or a None label '
+               '(outside the assumptions: correspondence with the Model only, exceptions of the implementation are counted); '
+               'non-trivial = at least 4 labels')
+    rng = rng_for(ctx.seed, 'c18-labels')
+    harden(s, rng_for(ctx.seed, 'c18-labels-state'), rate_for(ctx) / 3)
+    b = Batch(ctx, s)
+
+    def one(fn_name, codes_args, zero_kinds, other_kinds, oracle=True):
+        """codes_args: list of code lists (the label-list arguments of the function)"""
+        flat = [c for a in codes_args for c in a]
+        objs, dec = make_labels(flat, zero_kinds, other_kinds)
+        args, k = [], 0
+        for a in codes_args:
+            args.append(objs[k:k + len(a)])
+            k += len(a)
+        ys, exc = collect(getattr(fp, fn_name), *args)
+        case = {'fn': fn_name, 'label_codes': codes_args, 'zero_kinds': list(zero_kinds), 'other_kinds': list(other_kinds)}
+        s.case(case, nontrivial=len(flat) >= 4)
+        s.count(fn_name)
+        if exc:
+            if oracle:
+                s.violate('unexpected exception ' + exc, case, {})
+            else:
+                s.count(fn_name + ':raises:' + exc)
+            return
+        try:
+            impl = [enc_pairing_with(y, dec) for y in ys]
+        except Exception as e:  # noqa: BLE001
+            s.violate('a yield contains an object that is not one of the labels: ' + type(e).__name__, case, {})
+            return
+        if fn_name == 'pair_within':
+            labs = codes_args[0]
+            orc = [('pair_within: not (perfect matchings containing every pair)',
+                    {'op': 'c18.spec.pair_within', 'labels': labs, 'ys': impl}, is_true)] if oracle else []
+            b.add(case, impl, {'op': 'c18.pair_within', 'labels': labs}, orc)
+        elif fn_name == 'pair_within_simultaneously':
+            labs = codes_args[0]
+            orc = []
+            if oracle:
+                miss = quad_brute([labs], impl)
+                if miss is not None:
+                    s.violate('pair_within_simultaneously: four labels without a co-scheduled split (brute force)', case,
+                              {'uncovered': miss, 'n_yields': len(impl)})
+                if len(labs) <= 16:
+                    orc.append(('pair_within_simultaneously: Spec quadsCovered fails',
+                                {'op': 'c18.spec.quads', 'bins': [labs], 'ys': impl}, ok_field))
+            b.add(case, impl, {'op': 'c18.pws', 'labels': labs}, orc)
+        else:
+            f1, f2 = codes_args
+            orc = [('pair_between: not (matchings + every cross pair exactly once)',
+                    {'op': 'c18.spec.pair_between', 'f1': f1, 'f2': f2, 'ys': impl}, is_true)] if oracle else []
+            b.add(case, impl, {'op': 'c18.pair_between', 'f1': f1, 'f2': f2, 'off': 0}, orc)
+    # (a) every position of a falsy label
+    zi = 0
+    for n in range(2, 22):
+        for pos in range(n):
+            codes = list(range(1, n))
+            rng.shuffle(codes)
+            codes.insert(pos, 0)
+            for fn_name in ('pair_within', 'pair_within_simultaneously'):
+                zk = ZERO_KINDS[zi % len(ZERO_KINDS)]
+                zi += 1
+                ok = ['int'] if zi % 3 else [rng.choice(OTHER_KINDS)]
+                s.count('falsy:' + zk)
+                one(fn_name, [codes], [zk], ok)
+    for n1 in range(0, 7):
+        for n2 in range(0, 7):
+            for pos in range(n1 + n2):
+                codes = list(range(1, n1 + n2))
+                rng.shuffle(codes)
+                codes.insert(pos, 0)
+                zk = ZERO_KINDS[zi % len(ZERO_KINDS)]
+                zi += 1
+                one('pair_between', [codes[:n1], codes[n1:]], [zk], ['int'])
+    # (b) mixtures
+    for _ in range(budget('thorough' if ctx.drift else ctx.tier, 150, 600)):
+        n = rng.randint(2, 16)
+        # several falsy labels can only be told apart by the decoder when they are not equal: "", b"", frozenset() and
+        # one numeric zero
+        zks = [rng.choice(ZERO_KINDS[:6] + ['fraction0'])]
+        codes = list(range(1, n))
+        rng.shuffle(codes)
+        codes.insert(rng.randrange(n), 0)
+        kinds = [rng.choice(OTHER_KINDS) for _i in range(n)]
+        fn_name = rng.choice(['pair_within', 'pair_within_simultaneously', 'pair_between'])
+        s.count('mixture')
+        if fn_name == 'pair_between':
+            cut = rng.randint(0, n)
+            one(fn_name, [codes[:cut], codes[cut:]], zks, kinds)
+        else:
+            one(fn_name, [codes], zks, kinds)
+    # (c) outside the assumptions: duplicates / None (Model correspondence only)
+    for _ in range(budget('thorough' if ctx.drift else ctx.tier, 120, 500)):
+        n = rng.randint(2, 12)
+        codes = list(range(1, n + 1))
+        rng.shuffle(codes)
+        how = rng.choice(['dup', 'none', 'both'])
+        if how in ('dup', 'both'):
+            codes[rng.randrange(n)] = codes[rng.randrange(n)]
+        if how in ('none', 'both'):
+            codes[rng.randrange(n)] = None
+        s.count('outside-assumptions:' + how)
+        one(rng.choice(['pair_within', 'pair_within_simultaneously']), [codes], ['int0'], ['int'], oracle=False)
+    b.flush()
+    return s
+
+
 def run(ctx):
     of = ctx.of
     import importlib
     fp = importlib.import_module('openfermion.measurements.fermion_partitioning')
     qp = importlib.import_module('openfermion.measurements.qubit_partitioning')
-    streams = [
-        stream_pair_between(ctx, fp),
-        stream_pair_within(ctx, fp),
-        stream_helpers(ctx, fp),
-        stream_pws(ctx, fp),
-        stream_binned(ctx, fp),
-        stream_partitions(ctx, qp),
-        stream_tpb(ctx, of, qp),
-    ]
+    import os
+    import time
+    streams = []
+    for fn, args in ((stream_pair_between, (ctx, fp)), (stream_pair_within, (ctx, fp)), (stream_helpers, (ctx, fp)),
+                     (stream_pws, (ctx, fp)), (stream_binned, (ctx, fp)), (stream_partitions, (ctx, qp)),
+                     (stream_tpb, (ctx, of, qp)), (stream_label_types, (ctx, fp))):
+        t0 = time.time()
+        streams.append(fn(*args))
+        if os.environ.get('OFV_TIMING'):
+            print('timing %s %.1fs' % (fn.__name__, time.time() - t0), flush=True)
     return streams
 
 
@@ -1116,6 +1286,22 @@ def replay(ctx, payload):
             if f is None or any(isinstance(x, dict) and 'repr' in x for x in case['args']):
                 return None
             return replay_state(f, case)
+        if 'label_codes' in case:
+            codes_args = case['label_codes']
+            flat = [c for a in codes_args for c in a]
+            objs, dec = make_labels(flat, case['zero_kinds'], case['other_kinds'])
+            args, k = [], 0
+            for a in codes_args:
+                args.append(objs[k:k + len(a)])
+                k += len(a)
+            ys = [enc_pairing_with(y, dec) for y in getattr(fp, fn)(*args)]
+            if any(c is None for c in flat) or len(set(flat)) != len(flat):
+                return None
+            if fn == 'pair_within':
+                return d.one({'op': 'c18.spec.pair_within', 'labels': codes_args[0], 'ys': ys}) is True
+            if fn == 'pair_between':
+                return d.one({'op': 'c18.spec.pair_between', 'f1': codes_args[0], 'f2': codes_args[1], 'ys': ys}) is True
+            return quad_brute([codes_args[0]], ys) is None
         if fn == 'pair_within':
             ys = [enc_pairing(y) for y in fp.pair_within(cont(kind, case['labels']))]
             return d.one({'op': 'c18.spec.pair_within', 'labels': case['labels'], 'ys': ys}) is True
